@@ -454,6 +454,46 @@ func simC19Walk(c *Ctx) {
 		if !sameModuloSetOrder(back, root) {
 			c.Fail("C19", "remark-differs", "remark-differs", "removing marks with their paths and re-applying them gave %s, the original is %s", safeGoString(back), d)
 		}
+		// the recorded (path, marks) list is the caller's: it is still what UnmarkDeepWithPaths reported, and
+		// applying it again (the same slice, then the slice it was copied from) restores the original again
+		for round, list := range [][]cty.PathValueMarks{perm, pvm} {
+			for _, x := range list {
+				if k := renderPath(x.Path); gotPVM[k] != marksKey(x.Marks) {
+					c.Fail("C19", "remark-list-changed", "remark-list-changed", "after MarkWithPaths the caller's list names %s with marks %s; UnmarkDeepWithPaths had reported %q there", k, marksKey(x.Marks), gotPVM[k])
+				}
+			}
+			again := u.MarkWithPaths(list)
+			c.API("MarkWithPaths")
+			if !sameModuloSetOrder(again, root) {
+				c.Fail("C19", "remark-differs", "remark-again-differs", "re-applying the same recorded marks a second time (round %d) gave %s, the original is %s", round+2, safeGoString(again), d)
+			}
+		}
+		// a drawn subset of the recorded entries marks exactly those members
+		if len(pvm) > 1 {
+			keep := map[string]bool{}
+			var sub []cty.PathValueMarks
+			for _, x := range pvm {
+				if c.G(2) == 0 {
+					sub = append(sub, x)
+					keep[renderPath(x.Path)] = true
+				}
+			}
+			part := cloneDesc(d)
+			var partNodes []mnode
+			enumerate(part, "", nil, -1, false, false, &partNodes)
+			for _, n := range partNodes {
+				if !keep[n.key] {
+					n.d.Marks = nil
+				}
+			}
+			got := u.MarkWithPaths(sub)
+			c.API("MarkWithPaths")
+			observe(c, got, "MarkWithPaths")
+			if !sameModuloSetOrder(got, part.Build()) {
+				c.Fail("C19", "remark-differs", "remark-subset-differs", "re-applying %d of the %d recorded entries gave %s, want %s", len(sub), len(pvm), safeGoString(got), part)
+			}
+			c.Probe("c19.remark-subset")
+		}
 	}
 	_, dm := root.UnmarkDeep()
 	all := allMarksOf(d)
